@@ -290,7 +290,7 @@ func (in *Interp) global(g *ssa.Global) *Value {
 	return p
 }
 
-var initAllow = map[string]bool{ "github.com/mfcochauxlaberge/jsonapi": true, "time": false}
+var initAllow = map[string]bool{"github.com/mfcochauxlaberge/jsonapi": true, "time": false, "encoding/base64": true} // base64: its encodings are built by the initialiser (run lazily, only on paths that touch them)
 
 func (in *Interp) ensureInit(pkg *ssa.Package) {
 	path := pkg.Pkg.Path()
